@@ -299,7 +299,7 @@ def world_for(prop, tier, seed, idx):
 
 
 # ------------------------------------------------------------------ C18 data faults
-SYM_SPLINE = ["lo", "hi", "lo-", "lo+", "hi-", "hi+", "knot", "knot+", "knot-", "yknot", "out_lo", "out_hi", "mid"]
+SYM_SPLINE = ["lo", "lo", "lo", "hi", "hi", "hi", "lo-", "lo+", "hi-", "hi+", "knot", "knot", "knot+", "knot-", "yknot", "yknot", "out_lo", "out_hi", "mid"]
 SYM_TANH = ["max_val", "-max_val", "max_val-", "max_val+", "tanh_max_val", "-tanh_max_val", "tanh_max_val-", "tanh_max_val+", "1", "-1", "1-", "1+"]
 SYM_GENERIC = ["0", "-0", "big", "-big", "huge", "-huge", "tiny"]
 SYMBOLS = SYM_SPLINE + SYM_TANH + SYM_GENERIC
